@@ -16,7 +16,9 @@ RULE = (
     "the whole top level) in inline fragments, named fragments and same-key field splits and must "
     "not measure shallower. "
     "One rule instance also serves several requests whose boolean variables change the depth; "
-    "operations of multi-operation documents are named Q, QQ, QQQ half of the time.  "
+    "operations of multi-operation documents are named Q, QQ, QQQ half of the time. Operations of one document "
+    "declare a shared variable with different defaults (each is measured with its own); one rule object is also "
+    "called by four threads at once (switch interval 1 us), each call must answer what it answers alone.  "
     "Non-trivial = distinct (document, limit) whose document uses a "
     "fragment, directive or >= 2 operations."
 )
@@ -278,7 +280,71 @@ def run(ctx):
                     for k in kinds:
                         ctx.count("wrap:" + k)
             ctx.sample("document", {"document": rulebreak.render(doc)[:300], "depths": base_depths})
+    concurrent_use_of_one_rule(ctx, rng)
     ctx.require("operations:flat", 5)
     ctx.require("operations:top-level-fragment", 10)
     ctx.require("wrapped_copies", 20)
     ctx.require("rule_calls", 300)
+
+
+def concurrent_use_of_one_rule(ctx, rng, n_threads=4, rounds=150):
+    """One rule object serves the requests of a threaded server: several threads validate their own document with
+    their own variables through the same instance at the same time (short GIL switch interval). Each call has to
+    give the verdict it gives alone."""
+    import sys
+    import threading
+
+    from py_gql.lang import parse
+    from py_gql.utilities import MaxDepthValidationRule
+
+    case = exec_mon.Case(rng, "c19c:%d:%d" % (ctx.seed, ctx.shard))
+    jobs = []
+    for i in range(n_threads):
+        depth = i % 3          # __schema chains of different depth, steered by this thread's own variable
+        chain = "name"
+        for lv in ["types", "fields", "type"][:depth][::-1]:
+            chain = "%s { %s }" % (lv, chain)
+        body = "{ %s }" % chain if depth else "{ queryType { name } }"
+        text = "query Job%d($on: Boolean = false) { __typename deep: __schema @include(if: $on) %s ...Frag } fragment Frag on %s { __typename }" % (
+            i, body, case.ir.query)
+        want_on = max(depth, 1) + 0     # depth of the chain below __schema, plus the level of __schema itself
+        jobs.append((parse(text), {"on": True}, 1 + max(depth, 1) if True else 0, {"on": False}, 0, text))
+    limit = 1
+    rule = MaxDepthValidationRule(limit)
+    # what each call answers alone
+    alone = []
+    for doc, v_on, _d1, v_off, _d0, _t in jobs:
+        alone.append((bool(MaxDepthValidationRule(limit)(case.schema, doc, v_on)), bool(MaxDepthValidationRule(limit)(case.schema, doc, v_off))))
+    problems = []
+    barrier = threading.Barrier(n_threads)
+
+    def worker(k):
+        doc, v_on, _d1, v_off, _d0, text = jobs[k]
+        barrier.wait()
+        for r in range(rounds):
+            for which, variables in ((0, v_on), (1, v_off)):
+                try:
+                    got = bool(rule(case.schema, doc, variables))
+                except Exception as e:
+                    problems.append(("concurrent:shared-rule-instance-raises:%s" % type(e).__name__, text, repr(e)[:200]))
+                    return
+                if got != alone[k][which]:
+                    problems.append(("concurrent:shared-rule-instance-gives-another-verdict", text,
+                                     "thread %d, variables %r: flagged=%r, alone flagged=%r" % (k, variables, got, alone[k][which])))
+                    return
+
+    old = sys.getswitchinterval()
+    sys.setswitchinterval(1e-6)
+    try:
+        threads = [threading.Thread(target=worker, args=(k,)) for k in range(n_threads)]
+        for t in threads:
+            t.start()
+        for t in threads:
+            t.join(120)
+    finally:
+        sys.setswitchinterval(old)
+    ctx.evaluated()
+    ctx.count("concurrent_rule_calls", n_threads * rounds * 2)
+    ctx.count("distinct_verdicts_among_concurrent_jobs", len(set(alone)))
+    for key, text, detail in problems[:1]:
+        ctx.violation(key, {"schema_sdl": "", "document": text, "threads": n_threads, "limit": limit}, detail)
